@@ -18,6 +18,11 @@ type Env struct {
 	results   []Val
 	pkg       *types.Package
 	self      bool // evaluating the function's own contract: locals visible
+	depth     int
+	noInv     bool // under a binder: loads must not be named by constants
+	triggers  *[]string // candidate e-matching patterns collected under a quantifier
+	bound     map[string]bool
+	frameArrs []string // arrays the function under this contract may write (for unchangedOutside)
 }
 
 func (fc *FnCtx) selfEnv(pre, cur *State, results []Val) *Env {
@@ -124,6 +129,17 @@ func (fc *FnCtx) eval(env *Env, e *Expr) (Val, error) {
 			return Val{T: init}, nil
 		}
 		return Val{}, fmt.Errorf("ghost %s is never logged in this function", name)
+	case "gvar":
+		return Val{T: fc.gvarGet(env.cur, e.Name), Typ: intT}, nil
+	case "addr":
+		x, err := fc.eval(env, e.X)
+		if err != nil {
+			return Val{}, err
+		}
+		if x.SV == nil || x.SV.zero || x.Typ == nil {
+			return Val{}, fmt.Errorf("& needs a struct-typed field")
+		}
+		return Val{T: x.SV.ref, Typ: types.NewPointer(x.Typ)}, nil
 	case "fact":
 		if !g.facts[e.Name] {
 			return Val{}, fmt.Errorf("undeclared fact %s", e.Name)
@@ -156,7 +172,7 @@ func (fc *FnCtx) eval(env *Env, e *Expr) (Val, error) {
 		if !ok {
 			return Val{}, fmt.Errorf("deref of non-pointer")
 		}
-		v := fc.loadAt(env.cur, x, p.Elem())
+		v := fc.evalLoad(env, x, p.Elem(), "cx_deref")
 		v.Typ = p.Elem()
 		return v, nil
 	case "binary":
@@ -190,7 +206,10 @@ func (fc *FnCtx) eval(env *Env, e *Expr) (Val, error) {
 		switch t := x.Typ.Underlying().(type) {
 		case *types.Slice:
 			ref := embDyn("(sarr "+x.T+")", i.T, ti.sizeOf(t.Elem()))
-			v := fc.loadAt(env.cur, Val{T: ref}, t.Elem())
+			if env.triggers != nil && env.mentionsBound(i.T) {
+				*env.triggers = append(*env.triggers, ref)
+			}
+			v := fc.evalLoad(env, Val{T: ref}, t.Elem(), "cx_idx")
 			v.Typ = t.Elem()
 			return v, nil
 		case *types.Map:
@@ -204,27 +223,70 @@ func (fc *FnCtx) eval(env *Env, e *Expr) (Val, error) {
 		return Val{}, fmt.Errorf("cannot index %s", x.Typ)
 	case "forall", "exists":
 		n := *env
+		n.noInv = true
 		n.vars = map[string]Val{}
 		for k, v := range env.vars {
 			n.vars[k] = v
 		}
 		var decl []string
+		var trig []string
+		n.triggers = &trig
+		n.bound = map[string]bool{}
 		for _, v := range strings.Split(e.Name, ",") {
-			bv := "q_" + v
+			fc.q.fresh++
+			bv := fmt.Sprintf("q_%s_%d", v, fc.q.fresh)
 			n.vars[v] = Val{T: bv, Typ: intT}
+			n.bound[bv] = true
 			decl = append(decl, "("+bv+" Int)")
 		}
 		body, err := fc.eval(&n, e.X)
 		if err != nil {
 			return Val{}, err
 		}
-		return Val{T: fmt.Sprintf("(%s (%s) %s)", e.Op, strings.Join(decl, " "), body.T), Typ: boolT}, nil
+		bt := body.T
+		if len(trig) > 0 && e.Op == "forall" && len(decl) == 1 {
+			// one single-term pattern per distinct indexed read
+			seen := map[string]bool{}
+			var pats []string
+			for _, t := range trig {
+				if !seen[t] {
+					seen[t] = true
+					pats = append(pats, ":pattern ("+t+")")
+				}
+			}
+			bt = "(! " + bt + " " + strings.Join(pats, " ") + ")"
+		}
+		return Val{T: fmt.Sprintf("(%s (%s) %s)", e.Op, strings.Join(decl, " "), bt), Typ: boolT}, nil
 	case "call":
 		return fc.evalCall(env, e)
 	case "mcall":
 		return Val{}, fmt.Errorf("method calls are not allowed in contracts (%s)", e.Name)
 	}
 	return Val{}, fmt.Errorf("cannot evaluate %s", e.Op)
+}
+
+func (env *Env) mentionsBound(t string) bool {
+	for b := range env.bound {
+		if strings.Contains(t, b) {
+			return true
+		}
+	}
+	return false
+}
+
+func (fc *FnCtx) gvarGet(st *State, name string) string {
+	if _, ok := fc.ghostInit[name]; !ok {
+		fc.ghostSort[name] = sInt
+		fc.ghostInit[name] = fc.q.declare("gv_"+sanitize(name[1:])+"_entry", sInt)
+	}
+	return st.ghostGet(name, sInt, fc.ghostInit[name])
+}
+
+func (fc *FnCtx) evalLoad(env *Env, addr Val, t types.Type, hint string) Val {
+	if env.noInv {
+		return fc.loadAt(env.cur, addr, t)
+	}
+	return fc.loadAtInv(env.cur, addr, t, hint)
 }
 
 func (fc *FnCtx) constToVal(c *types.Const) Val {
@@ -360,7 +422,7 @@ func (fc *FnCtx) selectField(env *Env, x Val, name string) (Val, error) {
 			if isStructLike(ft) {
 				cur = Val{SV: &StructVal{st: env.cur, ref: addr.T}, Typ: ft}
 			} else {
-				cur = fc.loadAt(env.cur, addr, ft)
+				cur = fc.evalLoad(env, addr, ft, "cx_"+sanitize(name))
 				cur.Typ = ft
 			}
 			continue
@@ -373,8 +435,15 @@ func (fc *FnCtx) selectField(env *Env, x Val, name string) (Val, error) {
 		if cur.SV == nil {
 			return Val{}, fmt.Errorf("struct value expected for %s", t)
 		}
+		svst := cur.SV.st
 		cur = fc.fieldOfStruct(cur.SV, t, idx)
 		cur.Typ = ft
+		if cur.SV == nil && svst != nil && !env.noInv && needsInv(ti.sortOf(ft), ft) {
+			c := fc.q.freshConst("cx_"+sanitize(name), ti.sortOf(ft))
+			fc.q.assert(implies(env.cur.reach, eq(c, cur.T)))
+			fc.typeInvB(env.cur, c, ft, svst.boundOf(ti.fieldArray(t, idx)))
+			cur.T = c
+		}
 	}
 	_ = ti
 	return cur, nil
@@ -495,6 +564,27 @@ func sortToType(s string) types.Type {
 
 func (fc *FnCtx) evalCall(env *Env, e *Expr) (Val, error) {
 	ti := fc.g.ti
+	m, ok := fc.g.macros[e.Name]
+	if env.pkg != nil {
+		if pm, pok := fc.g.macros[env.pkg.Path()+"::"+e.Name]; pok {
+			m, ok = pm, true
+		}
+	}
+	if ok {
+		if len(m.Params) != len(e.Args) {
+			return Val{}, fmt.Errorf("macro %s expects %d arguments", e.Name, len(m.Params))
+		}
+		if env.depth > 30 {
+			return Val{}, fmt.Errorf("macro recursion in %s", e.Name)
+		}
+		sub := map[string]*Expr{}
+		for i, p := range m.Params {
+			sub[p] = e.Args[i]
+		}
+		n := *env
+		n.depth++
+		return fc.eval(&n, substExpr(m.Body, sub))
+	}
 	switch e.Name {
 	case "old":
 		n := *env
@@ -583,6 +673,125 @@ func (fc *FnCtx) evalCall(env *Env, e *Expr) (Val, error) {
 	case "dyntype":
 		// dyntype(x, "pkg.Type"): dynamic type test on an interface value is done via typeIs
 		return Val{}, fmt.Errorf("dyntype unsupported")
+	case "sprintf":
+		// sprintf("format", args...): the same term the generator builds for fmt.Sprintf
+		if len(e.Args) < 1 || e.Args[0].Op != "str" {
+			return Val{}, fmt.Errorf("sprintf needs a literal format")
+		}
+		var elems []string
+		for _, a := range e.Args[1:] {
+			v, err := fc.eval(env, a)
+			if err != nil {
+				return Val{}, err
+			}
+			if v.Typ == nil {
+				return Val{}, fmt.Errorf("sprintf argument needs a Go type")
+			}
+			elems = append(elems, fc.makeIface(env.cur, v, v.Typ))
+		}
+		r, ok := fc.sprintfTerm(e.Args[0].Name, elems)
+		if !ok {
+			return Val{}, fmt.Errorf("sprintf: verbs and arguments do not match")
+		}
+		return Val{T: r, Typ: strT}, nil
+	case "sum":
+		// sum(k, n, e): the sum of e for k in [0, n)
+		if len(e.Args) != 3 || e.Args[0].Op != "ident" {
+			return Val{}, fmt.Errorf("sum(k, n, expr)")
+		}
+		nv, err := fc.eval(env, e.Args[1])
+		if err != nil {
+			return Val{}, err
+		}
+		n := *env
+		n.noInv = true
+		n.vars = map[string]Val{}
+		for k, v := range env.vars {
+			n.vars[k] = v
+		}
+		bv := "sk_" + e.Args[0].Name
+		n.vars[e.Args[0].Name] = Val{T: "(- " + bv + " 1)", Typ: intT}
+		body, err := fc.eval(&n, e.Args[2])
+		if err != nil {
+			return Val{}, err
+		}
+		fname := fc.q.recFun(bv, body.T)
+		return Val{T: app(fname, nv.T), Typ: intT}, nil
+	case "unchangedOutside":
+		// unchangedOutside(s): every heap cell the function may write keeps its value unless it lies in the backing array of s
+		x, err := fc.eval(env, e.Args[0])
+		if err != nil {
+			return Val{}, err
+		}
+		if fc.vsort(x) != sSlice {
+			return Val{}, fmt.Errorf("unchangedOutside() needs a slice")
+		}
+		var cs []string
+		for _, a := range env.frameArrs {
+			if _, ok := fc.g.arrSort[a]; !ok {
+				continue
+			}
+			o, n := env.pre.get(a), env.cur.get(a)
+			if o == n {
+				continue
+			}
+			fc.q.fresh++
+			rv := fmt.Sprintf("ur_%d", fc.q.fresh)
+			cs = append(cs, fmt.Sprintf("(forall ((%s Ref)) (! (=> (and (not (= (rbase %s) (rbase (sarr %s)))) (<= (rbase %s) %s)) (= (select %s %s) (select %s %s))) :pattern ((select %s %s))))", rv, rv, x.T, rv, env.pre.alloc(), n, rv, o, rv, n, rv))
+		}
+		return Val{T: and(cs...), Typ: boolT}, nil
+	case "backing":
+		// backing(s): identity of the backing array of slice s (0 for a nil slice)
+		x, err := fc.eval(env, e.Args[0])
+		if err != nil {
+			return Val{}, err
+		}
+		if fc.vsort(x) != sSlice {
+			return Val{}, fmt.Errorf("backing() needs a slice")
+		}
+		return Val{T: "(rbase (sarr " + x.T + "))", Typ: intT}, nil
+	case "typeid":
+		if len(e.Args) != 1 || e.Args[0].Op != "str" {
+			return Val{}, fmt.Errorf("typeid(\"*pkg.Type\")")
+		}
+		t := fc.g.lookupType(e.Args[0].Name)
+		if t == nil {
+			return Val{}, fmt.Errorf("typeid: unknown type %s", e.Args[0].Name)
+		}
+		return Val{T: fmt.Sprint(fc.g.ti.typeID(t)), Typ: intT}, nil
+	case "iref":
+		// iref(x): the pointer held by interface value x
+		x, err := fc.eval(env, e.Args[0])
+		if err != nil {
+			return Val{}, err
+		}
+		return Val{T: "(iref " + x.T + ")"}, nil
+	case "patchBody":
+		x, err := fc.eval(env, e.Args[0])
+		if err != nil {
+			return Val{}, err
+		}
+		return Val{T: "(istr " + x.T + ")", Typ: strT}, nil
+	case "as":
+		// as(x, "int32"): give an untyped term (ghost value) a Go basic type
+		x, err := fc.eval(env, e.Args[0])
+		if err != nil {
+			return Val{}, err
+		}
+		if e.Args[1].Op != "str" {
+			return Val{}, fmt.Errorf("as(x, \"type\")")
+		}
+		for _, bt := range types.Typ {
+			if bt.Name() == e.Args[1].Name {
+				x.Typ = bt
+				return x, nil
+			}
+		}
+		if t := fc.g.lookupType(e.Args[1].Name); t != nil {
+			x.Typ = t
+			return x, nil
+		}
+		return Val{}, fmt.Errorf("unknown type %s", e.Args[1].Name)
 	case "isNil":
 		x, err := fc.eval(env, e.Args[0])
 		if err != nil {
